@@ -138,6 +138,9 @@ Inv_C18 == \A m \in 1..Len(o.ops) : o.ops[m].h => (Status(m) = Truth(m) \/ Alias
 \* c.last is written when a call returns and read only within that same step (Track)
 View == << [c EXCEPT !.last = 0], n, b, o >>
 
+\* C04: an inbound QoS 2 identifier is on record only if its message was handed to the application
+Inv_C04 == c.sids \subseteq o.got2
+
 \* sanity: queue capacities are respected
 Inv_Caps == Len(c.ret) <= Cap /\ Len(c.rel) <= Cap /\ Len(c.ctl) <= CtlCap /\ c.quota <= c.maxq
 =============================================================================
